@@ -338,7 +338,7 @@ func (s *sim) run() {
 			if s.regPending != nil {
 				select {
 				case <-s.regPending:
-				case <-time.After(20 * time.Second):
+				case <-time.After(vkit.Patient(20 * time.Second)):
 					s.violate("registration-stuck", "%s: NewTable started during the commit did not finish", what)
 				}
 				s.regPending = nil
@@ -481,7 +481,7 @@ func TestVerifRace_Waiters(t *testing.T) {
 		go func() { wg.Wait(); close(woke) }()
 		select {
 		case <-woke:
-		case <-time.After(20 * time.Second):
+		case <-time.After(vkit.Patient(20 * time.Second)):
 			r.Violation("never-initialized", round, map[string]any{"message": "after done(a) commit; done(b) abort; done(b) commit the waiters on the Initialized() channel were never woken"})
 			r.Finish()
 			return
